@@ -101,6 +101,8 @@ def run(ctx, model=None):
             for fr in fronts:
                 g = gen.dead_shape_game(rng, kind, pat, front=fr)
                 check_case(ctx, g, model)
+    for k in range(12 if ctx.quick() else 200):
+        check_case(ctx, gen.tiny_reach_game(rng), model)
     N = 300 if ctx.quick() else 6000
     for k in range(N):
         g = gen.stopping_game(rng, extra_finals=0.25) if k % 3 else gen.free_game(rng)
